@@ -313,9 +313,15 @@ def _bt_shapes():
 
 
 BT_SHAPES = _bt_shapes()
+U70_SHAPES = [(n, at) for n in range(0, 9) for at in range(0, n + 1)]
+U70_QUICK = {(8, 0), (8, 3), (8, 4), (8, 5), (8, 8), (3, 1), (0, 0)}
 M_BTNODE = KModule("btree_node", "src/btree/node.rs", "verif_btree_node", "btree_node.rs",
-                   lambda: "\n".join(("node_harness!(#[kani::unwind(12)] %s, %s);" % (nm, call)) if stub else
-                                      ("#[kani::proof]\n#[kani::unwind(12)]\nfn %s() { %s; }" % (nm, call)) for (nm, call, stub, _t) in BT_SHAPES))
+                   lambda: "\n".join([("node_harness!(#[kani::unwind(12)] %s, %s);" % (nm, call)) if stub else
+                                      ("#[kani::proof]\n#[kani::unwind(12)]\nfn %s() { %s; }" % (nm, call)) for (nm, call, stub, _t) in BT_SHAPES] +
+                                     ["node_harness!(#[kani::unwind(13)] #[kani::stub(super::Node::write_split_child, stub_write_split_child)] u70_insert_node_n%d_at%d, u70_insert_node(%d, %d));" % (n, at, n, at) for (n, at) in U70_SHAPES]))
+for (_n, _at) in U70_SHAPES:
+    M_BTNODE.harnesses.append(H("u70_insert_node_n%d_at%d" % (_n, _at), "U70", kind="proof", tiers=("quick", "thorough") if (_n, _at) in U70_QUICK else ("thorough",),
+                                shape="Node::insert_node into an inner node with %d separator(s), position %d" % (_n, _at)))
 for (nm, call, stub, tiers) in BT_SHAPES:
     M_BTNODE.harnesses.append(H(nm, "U12", kind="bounded" if stub else "proof", tiers=tiers, shape=call,
                                 bound="parent sizes {1,4,8}, sibling sizes {4,5,8}; child I/O (fetch_child / write_child / write_plan_remove_node) by contract" if stub else None))
@@ -1047,3 +1053,11 @@ PROPS["C07"]["verus_units"] = list(PROPS["C07"].get("verus_units", [])) + ["ref_
 PROPS["C07"]["claim"] = PROPS["C07"]["claim"] + " Frame of a count change (Verus, fragment of change_ref, all counters and entry contents): what change_ref hands to the log is the stored entry, under its own slot, with exactly the four counter bytes replaced by the new count (raised by one, locked at u32::MAX and then never lowered, lowered by one) and nothing else changed; an absent entry and a count that reaches zero log nothing."
 PROPS["C07"]["does_not_cover"] = [x for x in PROPS["C07"]["does_not_cover"] if "frame of change_ref" not in x]
 PROPS["C08"]["does_not_cover"] = [x for x in PROPS["C08"]["does_not_cover"] if "bg_err state" not in x and "clean_overlay (Entry API)" not in x]
+
+# ---------------------------------------------------------------- U70 (Kani: Node::insert_node -- the split / insert path of inner nodes)
+UNIT_META["U70"] = {"functions": ["btree::node::Node::{insert_node, split, shift_from, set_separator, set_child, remove_separator}"],
+                    "assumes": ["Node::write_split_child (stores the new right node) replaced by a recorder; keys are not inspected by these operations and are empty in the harness",
+                                "complete over the node sizes 0..=ORDER and every insert position (ORDER = 8 is a program constant)"]}
+PROPS["C04"]["kani_units"] = list(PROPS["C04"]["kani_units"]) + ["U70"]
+PROPS["C04"]["claim"] = PROPS["C04"]["claim"] + " Insert / split path of inner nodes (Kani, complete over node sizes 0..=8 and every position): Node::insert_node puts the separator handed up by a split child at its position and the new child right of it; a full node is split into two packed nodes with a separator handed further up such that reading left node, separator, right node in order gives exactly the old separators and children with the new ones inserted -- nothing lost, duplicated or reordered; only a full node is split."
+PROPS["C04"]["does_not_cover"] = [x.replace("insert / split path (Node::change)", "leaf-level insert (Node::insert: creates the value entry) and the operation loop of Node::change") for x in PROPS["C04"]["does_not_cover"]]
